@@ -4,7 +4,7 @@
 From Coq Require Import List Arith ZArith Reals Lra Lia Bool.
 From TLV Require Import Base.Shape Base.PyList Base.Tensor Base.BigSum Base.Ops Model.Transforms
   Proofs.TransformsProofs Proofs.TransformsProofsR Proofs.TransformsProofsTT Proofs.TransformsProofsTucker
-  Proofs.TransformsProofsPf2 Proofs.TransformsProofsR2 Proofs.TransformsProofsFlip.
+  Proofs.TransformsProofsPf2 Proofs.TransformsProofsR2 Proofs.TransformsProofsFlip Proofs.TransformsProofsApi.
 Import ListNotations.
 
 (* --- cp_permute_factors: any column permutation applied to all factors and the weights *)
@@ -101,6 +101,45 @@ Theorem C04_cp_mode_dot_vector_contract : forall (F : Type) (Op : fops F),
   sumn Op (length (nth k fs [])) (fun i => fmul Op (vget Op v i) (cp_entry Op w fs (insert_at k i idx'))).
 Proof. exact @cp_mode_dot_vector_contract. Qed.
 Print Assumptions C04_cp_mode_dot_vector_contract.
+
+(* --- input forms (CPTensor object / plain (weights, factors) tuple, weights None): the theorems above are about the core
+   functions; cp_mode_dot_api / cp_flip_sign_api model how the entry points treat the form of their operand on the current tree *)
+Theorem C04_cp_mode_dot_api_partial : forall (F : Type) (Op : fops F) (is_class copy : bool) (w : list F) (fs : list (mat F))
+  (x : operand) (mode : nat) (kd : bool),
+  is_class = true \/ copy = true ->
+  cp_mode_dot_api Op is_class copy (Some w) fs x mode kd = cp_mode_dot Op w fs x mode kd.
+Proof. exact @cp_mode_dot_api_ok. Qed.
+Print Assumptions C04_cp_mode_dot_api_partial.
+
+(* genuine defect: a plain tuple with copy=False (the default) raises AttributeError although the product is well defined *)
+Theorem C04_cp_mode_dot_tuple_refuted :
+  exists (w : list Z) (fs : list (mat Z)) (M : mat Z) r,
+    cp_mode_dot Zops w fs (OpMat M) 0 false = Ok r /\
+    cp_mode_dot_api Zops false false (Some w) fs (OpMat M) 0 false = Err.
+Proof. exact cp_mode_dot_api_tuple_refuted. Qed.
+Print Assumptions C04_cp_mode_dot_tuple_refuted.
+
+(* genuine defect: (None, factors) with copy=True is rejected although the same tensor as a CPTensor object is accepted *)
+Theorem C04_cp_mode_dot_none_weights_refuted :
+  exists (fs : list (mat Z)) (M : mat Z) r,
+    cp_mode_dot_api Zops true true None fs (OpMat M) 0 false = Ok r /\
+    cp_mode_dot_api Zops false true None fs (OpMat M) 0 false = Err.
+Proof. exact cp_mode_dot_api_none_refuted. Qed.
+Print Assumptions C04_cp_mode_dot_none_weights_refuted.
+
+Theorem C04_cp_flip_sign_api_partial : forall (F : Type) (Op : fops F) (is_class : bool) (summ : list F -> F) (w : list F)
+  (fs : list (mat F)) (mode : nat),
+  cp_flip_sign_api Op is_class summ (Some w) fs mode = cp_flip_sign Op summ w fs mode.
+Proof. exact @cp_flip_sign_api_some. Qed.
+Print Assumptions C04_cp_flip_sign_api_partial.
+
+(* genuine defect: cp_flip_sign((None, factors)) raises TypeError although the CPTensor object with the same content is accepted *)
+Theorem C04_cp_flip_sign_none_weights_refuted :
+  exists (fs : list (mat Z)) r,
+    cp_flip_sign_api Zops true (col_sum Zops) None fs 0 = Ok r /\
+    cp_flip_sign_api Zops false (col_sum Zops) None fs 0 = Err.
+Proof. exact cp_flip_sign_api_none_refuted. Qed.
+Print Assumptions C04_cp_flip_sign_none_weights_refuted.
 
 (* --- cp_normalize over R; the square roots are data with the contract norms_ok *)
 Theorem C04_cp_normalize_entry : forall (tape : list (list R)) (w : list R) (fs : list (mat R)) w' fs' (idx : list nat),
